@@ -816,7 +816,7 @@ fn run_concl(ops: &[COp], goals: &[GoalSpec]) -> Option<(Vec<Disc>, Obs)> {
     Some((out, obs))
 }
 
-const CONCL_FIELDS: [&str; 7] = ["User.IsVIP", "User.IsVIPGold", "User.Age", "User", "Order.Total", "Order.Item.Price", "flag"];
+const CONCL_FIELDS: [&str; 10] = ["User.IsVIP", "User.IsVIPGold", "User.Age", "User", "Order.Total", "Order.Item.Price", "flag", "Gr\u{f6}\u{df}e.Wert", "\u{dc}r\u{fc}n", "Kh\u{e1}ch.H\u{e0}ng.L\u{e0}VIP"];
 
 fn clean_goals() -> Vec<GoalSpec> {
     let mut v = Vec::new();
@@ -1387,7 +1387,7 @@ impl Check for C16 {
         "C16"
     }
     fn rule(&self) -> String {
-        "Four differential monitors, histories of 1..=10 random ops each, value domain = integers, floats incl. 0.0/-0.0/NaN/+-inf, numeric-looking strings, booleans, (nested) arrays, null (37 values). alpha: ops insert/create_index/drop_index/filter_tracked/auto_tune on the real AlphaMemoryIndex, inserts mirrored into a never-indexed shadow; after EVERY op filter(field, v) is compared as a multiset for 3 fields x every domain value (3/5 of the histories use the domain without NaN/-0.0). beta: ops add/remove (live, removed-before and never-added positions) on BetaMemoryIndex; after every op lookup(key) for the printed key of every domain value and every live fact is compared with the scan of the harness's live list. memo: one MemoizedEvaluator, 2..=10 evaluate calls over 1..=3 generated nodes (in half of the histories plus a near-duplicate of one of them: exactly one parameter of one leaf differs) (alpha nodes with 11 operators x 16 literals, And/Or/Not/Exists/Forall to depth 2, multifield nodes) x 2..=4 fact sets; in half of the histories the fact sets print alike (as_str) but differ in type; every call is compared with evaluate_typed. conclusion: ops add_rule (1..=3 actions Set/Log/MethodCall/Retract, 1/6 disabled) / remove_rule (present or absent name) on ConclusionIndex; after every op find_candidates(goal) must contain every enabled present rule with a Set on the goal's field, for 7 fields x 13 goal spellings (bare field, == != > >= < <= contains matches, tight/blank spacing); 1/3 of the histories add goals whose string literal holds operator text and negated goals (NOT / !). EXHAUSTIVE sub-spaces: all (stored value, probe value) pairs of the domain for alpha (index created before and after the insert) and beta; all ordered pairs of print-alike values x 11 operators x 16 literals for memo. Non-trivial: alpha = some filter answered through an index was non-empty and some was empty; beta / conclusion = a non-empty expected answer after an effective remove; memo = at least one cache hit and both verdicts observed. Distinct by the whole history.".into()
+        "Four differential monitors, histories of 1..=10 random ops each, value domain = integers, floats incl. 0.0/-0.0/NaN/+-inf, numeric-looking strings, booleans, (nested) arrays, null (37 values). alpha: ops insert/create_index/drop_index/filter_tracked/auto_tune on the real AlphaMemoryIndex, inserts mirrored into a never-indexed shadow; after EVERY op filter(field, v) is compared as a multiset for 3 fields x every domain value (3/5 of the histories use the domain without NaN/-0.0). beta: ops add/remove (live, removed-before and never-added positions) on BetaMemoryIndex; after every op lookup(key) for the printed key of every domain value and every live fact is compared with the scan of the harness's live list. memo: one MemoizedEvaluator, 2..=10 evaluate calls over 1..=3 generated nodes (in half of the histories plus a near-duplicate of one of them: exactly one parameter of one leaf differs) (alpha nodes with 11 operators x 16 literals, And/Or/Not/Exists/Forall to depth 2, multifield nodes) x 2..=4 fact sets; in half of the histories the fact sets print alike (as_str) but differ in type; every call is compared with evaluate_typed. conclusion: ops add_rule (1..=3 actions Set/Log/MethodCall/Retract, 1/6 disabled) / remove_rule (present or absent name) on ConclusionIndex; after every op find_candidates(goal) must contain every enabled present rule with a Set on the goal's field, for 10 fields (three with non-ASCII letters in their names) x 13 goal spellings (bare field, == != > >= < <= contains matches, tight/blank spacing); 1/3 of the histories add goals whose string literal holds operator text and negated goals (NOT / !). EXHAUSTIVE sub-spaces: all (stored value, probe value) pairs of the domain for alpha (index created before and after the insert) and beta; all ordered pairs of print-alike values x 11 operators x 16 literals for memo. Non-trivial: alpha = some filter answered through an index was non-empty and some was empty; beta / conclusion = a non-empty expected answer after an effective remove; memo = at least one cache hit and both verdicts observed. Distinct by the whole history.".into()
     }
     fn assumptions(&self) -> Vec<String> {
         vec![
